@@ -145,3 +145,39 @@ class delay_with_mapper:
     def delay_error(s, out, x, e):
         s.term = True
         out.on_error(e)
+
+
+class delay_with_mapper_sub(delay_with_mapper):
+    """delay_with_mapper(subscription_delay, mapper): the source (0) is subscribed - once - when the subscription delay (1) first
+    emits or completes, and the subscription delay is released then; from there on as delay_with_mapper(mapper)"""
+
+    def init(s):
+        s.pending = 0
+        s.at_end = False
+        s.term = False
+        s.started = False
+
+    def on_subscribe(s, out):
+        out.subscribe_source(1)
+
+    def start(s, out):
+        if not s.started:
+            s.started = True
+            out.subscribe_source(0)
+            out.dispose_source(1)
+
+    def on_next(s, out, i, x):
+        if i == 1:
+            s.start(out)
+        else:
+            delay_with_mapper.on_next(s, out, x)
+
+    def on_error(s, out, i, e):
+        s.term = True
+        out.on_error(e)
+
+    def on_completed(s, out, i):
+        if i == 1:
+            s.start(out)
+        else:
+            delay_with_mapper.on_completed(s, out)
